@@ -256,6 +256,41 @@ def make_scorers(n, p):
     return Harness(run, [], sliced=True, timeout_ms=10000, name=f"scorers {info}")
 
 
+def _dtype_scorers(pp):
+    from skchange.anomaly_scores import L2Saving, LocalAnomalyScore, Saving
+    from skchange.change_scores import CUSUM, ChangeScore
+    from skchange.costs import GaussianCovCost, GaussianVarCost, L2Cost
+    scorers = {"L2Cost": (L2Cost, [[0, 8], [2, 5]]), "GaussianVarCost": (GaussianVarCost, [[0, 8], [4, 8]]), "CUSUM": (CUSUM, [[0, 3, 8]]),
+               "ChangeScore(GaussianVarCost)": (lambda: ChangeScore(GaussianVarCost()), [[0, 4, 8]]), "L2Saving": (L2Saving, [[1, 6]]),
+               "Saving(L2Cost)": (lambda: Saving(L2Cost(0.0)), [[1, 6]]), "LocalAnomalyScore(L2Cost)": (lambda: LocalAnomalyScore(L2Cost()), [[0, 2, 5, 8]])}
+    # fixed (non-integer) parameters: a cast of the parameter to the data dtype would show here
+    scorers["L2Cost(0.5)"] = (lambda: L2Cost(0.5), [[0, 8], [2, 5]])
+    scorers["L2Cost(per-column 0.5)"] = (lambda: L2Cost(np.full(pp, 0.5)), [[1, 7]])
+    scorers["GaussianVarCost((0.5, 1.5))"] = (lambda: GaussianVarCost((0.5, 1.5)), [[0, 8]])
+    scorers["GaussianCovCost((0.5, 1.5))"] = (lambda: GaussianCovCost((0.5, 1.5)), [[0, 8]])
+    scorers["Saving(L2Cost(0.5))"] = (lambda: Saving(L2Cost(0.5)), [[1, 6]])
+    scorers["Saving(GaussianVarCost((0.5, 1.5)))"] = (lambda: Saving(GaussianVarCost((0.5, 1.5))), [[1, 6]])
+    if pp == 2:
+        scorers["GaussianCovCost"] = (GaussianCovCost, [[4, 8]])
+    return scorers
+
+
+def _dtype_dets(pp):
+    from skchange.anomaly_detectors import CAPA, MVCAPA, CircularBinarySegmentation, StatThresholdAnomaliser
+    from skchange.change_detectors import PELT, MovingWindow, SeededBinarySegmentation
+    from skchange.costs import GaussianVarCost, L2Cost
+    dets = {"PELT": lambda: PELT(min_segment_length=1, penalty_scale=0.5), "MovingWindow": lambda: MovingWindow(bandwidth=2, threshold_scale=0.5),
+            "SBS": lambda: SeededBinarySegmentation(min_segment_length=1, threshold_scale=0.5), "CBS": lambda: CircularBinarySegmentation(min_segment_length=1, threshold_scale=0.5),
+            "CAPA": lambda: CAPA(collective_penalty_scale=0.5, point_penalty_scale=0.5), "MVCAPA": lambda: MVCAPA(collective_penalty_scale=0.5, point_penalty_scale=0.5),
+            "CAPA(L2Cost(0.5))": lambda: CAPA(L2Cost(0.5), L2Cost(0.5), collective_penalty_scale=0.1, point_penalty_scale=0.1),
+            "MVCAPA(L2Cost(0.5))": lambda: MVCAPA(L2Cost(0.5), L2Cost(0.5), collective_penalty_scale=0.1, point_penalty_scale=0.1),
+            "PELT(GaussianVarCost)": lambda: PELT(GaussianVarCost(), min_segment_length=2, penalty_scale=0.5),
+            "MovingWindow(L2Cost)": lambda: MovingWindow(L2Cost(), bandwidth=2, threshold_scale=0.5)}
+    if pp == 1:
+        dets["StatThresholdAnomaliser"] = lambda: StatThresholdAnomaliser(MovingWindow(bandwidth=2, threshold_scale=0.5))
+    return dets
+
+
 def make_dtype(seed=0):
     """int64 vs float64 holding the same values: native runs at integer data (testing)."""
     info = dict(part="dtype")
@@ -290,11 +325,7 @@ def make_dtype(seed=0):
                     A = Xi[:, cols]
                     pp = A.shape[1]
                     F = A.astype(np.float64)
-                    scorers = {"L2Cost": (L2Cost, [[0, 8], [2, 5]]), "GaussianVarCost": (GaussianVarCost, [[0, 8], [4, 8]]), "CUSUM": (CUSUM, [[0, 3, 8]]),
-                               "ChangeScore(GaussianVarCost)": (lambda: ChangeScore(GaussianVarCost()), [[0, 4, 8]]), "L2Saving": (L2Saving, [[1, 6]]),
-                               "Saving(L2Cost)": (lambda: Saving(L2Cost(0.0)), [[1, 6]]), "LocalAnomalyScore(L2Cost)": (lambda: LocalAnomalyScore(L2Cost()), [[0, 2, 5, 8]])}
-                    if pp == 2:
-                        scorers["GaussianCovCost"] = (GaussianCovCost, [[4, 8]])
+                    scorers = _dtype_scorers(pp)
                     for name, (mk, cuts) in scorers.items():
                         for wrap in (lambda a: a, lambda a: pd.DataFrame(a)):
                             try:
@@ -307,11 +338,7 @@ def make_dtype(seed=0):
                                 ok = False
                             acc.concrete("dtype.scorer_int64_equals_float64", ok, dict(info, scorer=name, data=A.tolist()))
                             acc.inc("dtype_witness_runs")
-                    dets = {"PELT": lambda: PELT(min_segment_length=1, penalty_scale=0.5), "MovingWindow": lambda: MovingWindow(bandwidth=2, threshold_scale=0.5),
-                            "SBS": lambda: SeededBinarySegmentation(min_segment_length=1, threshold_scale=0.5), "CBS": lambda: CircularBinarySegmentation(min_segment_length=1, threshold_scale=0.5),
-                            "CAPA": lambda: CAPA(collective_penalty_scale=0.5, point_penalty_scale=0.5), "MVCAPA": lambda: MVCAPA(collective_penalty_scale=0.5, point_penalty_scale=0.5)}
-                    if pp == 1:
-                        dets["StatThresholdAnomaliser"] = lambda: StatThresholdAnomaliser(MovingWindow(bandwidth=2, threshold_scale=0.5))
+                    dets = _dtype_dets(pp)
                     for name, mk in dets.items():
                         try:
                             a = mk().fit(pd.DataFrame(A)).predict(pd.DataFrame(A))
@@ -358,7 +385,28 @@ def replay(cx):
         except Exception:
             pass
     if part == "dtype":
-        return dict(reproduced=True, key=f"{ob}|{info.get('scorer') or info.get('det')}", what=f"int64 vs float64: {info}")
+        A = np.array(info["data"], dtype=np.int64)
+        F = A.astype(np.float64)
+        pp = A.shape[1]
+        with proxy.native():
+            try:
+                if "scorer" in info:
+                    mk, cuts = _dtype_scorers(pp)[info["scorer"]]
+                    a, b = mk().fit(A).evaluate(np.array(cuts)), mk().fit(F).evaluate(np.array(cuts))
+                    a2 = mk().fit(pd.DataFrame(A)).evaluate(np.array(cuts))
+                    bad = not (np.allclose(a, b, rtol=1e-9, atol=1e-9) and np.allclose(a2, b, rtol=1e-9, atol=1e-9))
+                    what = f"{info['scorer']}.fit(int64 data).evaluate({cuts}) = {np.asarray(a).tolist()} but on the same values as float64 {np.asarray(b).tolist()}"
+                else:
+                    mk = _dtype_dets(pp)[info["det"]]
+                    a = _sparse(mk().fit(pd.DataFrame(A)).predict(pd.DataFrame(A)))
+                    b = _sparse(mk().fit(pd.DataFrame(F)).predict(pd.DataFrame(F)))
+                    bad = a != b
+                    what = f"{info['det']} on int64 data gives {a}, on the same values as float64 {b}"
+            except RuntimeError:
+                bad, what = False, "RuntimeError (not positive definite)"
+            except Exception as ex:
+                bad, what = True, f"{type(ex).__name__}: {ex}"
+        return dict(reproduced=bool(bad), key=f"{ob}|{info.get('scorer') or info.get('det')}", what=what + f" [data {A.tolist()}]")
     n, p = info["n"], info["p"]
     Xf = np.array([[env.get(f"x_{i}_{j}", float((3 * i + 5 * j) % 7) - 2.5) for j in range(p)] for i in range(n)])
     cname = info.get("container", "frame")
